@@ -1,6 +1,6 @@
 //! C00 — self-test of the machinery (not a property): a toy "library" with injectable faults, to
 //! show that the driver turns hangs, aborts, runaway allocation, nondeterminism and vacuity into the
-//! right exit codes. Fault selected by MC_SELFTEST = ok | viol | hang | abort | oom | diverge | vacuous | flaky.
+//! right exit codes. Fault selected by MC_SELFTEST = ok | viol | hang | abort | oom | diverge | vacuous | flaky | ghost.
 
 use mc_core::{self as mc, json, Harness, Job, Plan, Tier};
 
@@ -49,6 +49,12 @@ impl Harness for C00 {
                 let t = std::time::SystemTime::now().duration_since(std::time::UNIX_EPOCH).unwrap().subsec_nanos() as usize;
                 let _ = mc::choose(2 + t % 3);
                 let _ = mc::choose(2);
+            }
+            // seen by the explorer, never again in a replay
+            "ghost" if target => {
+                if !mc::sampling() {
+                    mc::violation("toy.op:ghost", "only inside the explorer");
+                }
             }
             "flaky" if target => {
                 let t = std::time::SystemTime::now().duration_since(std::time::UNIX_EPOCH).unwrap().subsec_nanos();
